@@ -25,6 +25,15 @@ def bad_exit(): raise KeyError('exit')
 def late_bad_exit():
     time.sleep(0.6)      # the other workers are gone and the task queues are closed by the time this one fails
     raise KeyError('exit')
+def zombies():
+    me = os.getpid(); n = 0
+    for p in os.listdir('/proc'):
+        if p.isdigit():
+            try:
+                st = open('/proc/%%s/stat' %% p).read().rsplit(')', 1)[1].split()
+                if int(st[1]) == me and st[0] == 'Z': n += 1
+            except Exception: pass
+    return n
 def children():
     me = os.getpid(); out = []
     for p in os.listdir('/proc'):
@@ -56,6 +65,7 @@ def _cycle2(cause, sm, kw, holder):
             holder.append(p)
             if cause == 'late_exit_exc': p.map(sq, range(8), worker_exit=late_bad_exit)
             elif cause == 'success': p.map(sq, range(8), chunk_size=2)
+            elif cause == 'lifespan': p.map(sq, range(10), chunk_size=1, worker_lifespan=2)
             elif cause == 'task_exc': p.map(boom, range(8), chunk_size=1)
             elif cause == 'init_exc': p.map(sq, range(8), worker_init=bad_init)
             elif cause == 'exit_exc': p.map(sq, range(8), worker_exit=bad_exit)
@@ -78,11 +88,11 @@ def main():
     std = tu.get_tqdm(None)
     cycle(cause, sm, **kw)            # warm-up
     gc.collect(); time.sleep(0.3)
-    base = dict(fds=len(os.listdir('/proc/self/fd')), threads=sorted(t.name for t in threading.enumerate()), children=len(children()),
+    base = dict(fds=len(os.listdir('/proc/self/fd')), threads=sorted(t.name for t in threading.enumerate()), children=len(children()), zombies=zombies(),
                 handler=repr(signal.getsignal(signal.SIGINT)), lock=id(std.get_lock()))
     outs = [cycle(cause, sm, **kw) for _ in range(3)]
     gc.collect(); time.sleep(0.5)
-    after = dict(fds=len(os.listdir('/proc/self/fd')), threads=sorted(t.name for t in threading.enumerate()), children=len(children()),
+    after = dict(fds=len(os.listdir('/proc/self/fd')), threads=sorted(t.name for t in threading.enumerate()), children=len(children()), zombies=zombies(),
                  handler=repr(signal.getsignal(signal.SIGINT)), lock=id(std.get_lock()))
     print(json.dumps({'base': base, 'after': after, 'outs': outs, 'extra_threads_after_with': EXTRA[1:]}))
 if __name__ == '__main__':
@@ -118,7 +128,7 @@ def _run_file(path, args, timeout):
 
 def leak_suite(chk, quick=False):
     code = LEAK_DRIVER % {'root': ROOT}
-    causes = ['success', 'task_exc', 'init_exc', 'exit_exc', 'late_exit_exc', 'timeout', 'terminate_during_imap', 'abandoned_imap', 'mixed_map', 'progress', 'apply']
+    causes = ['success', 'lifespan', 'task_exc', 'init_exc', 'exit_exc', 'late_exit_exc', 'timeout', 'terminate_during_imap', 'abandoned_imap', 'mixed_map', 'progress', 'apply']
     jobs = []
     for cause in causes:
         for sm in ('fork', 'threading', 'spawn', 'forkserver'):
@@ -126,9 +136,12 @@ def leak_suite(chk, quick=False):
                 continue
             for kw in ({}, {'keep_alive': True}):
                 jobs.append((cause, sm, kw))
+            if cause == 'lifespan':
+                jobs.append((cause, sm, {'enable_insights': True}))
     if quick:
         # the few combinations DetSim cannot express at all (queues with feeder threads and pipes, start methods that pickle)
-        jobs = [('late_exit_exc', 'spawn', {}), ('exit_exc', 'forkserver', {}), ('success', 'spawn', {'keep_alive': True}), ('abandoned_imap', 'forkserver', {})]
+        jobs = [('late_exit_exc', 'spawn', {}), ('exit_exc', 'forkserver', {}), ('success', 'spawn', {'keep_alive': True}), ('abandoned_imap', 'forkserver', {}),
+                ('lifespan', 'fork', {'enable_insights': True})]      # replaced workers are processes too: ended, waited for, forgotten
     from concurrent.futures import ThreadPoolExecutor
     with ThreadPoolExecutor(6) as ex:
         results = list(ex.map(lambda j: run_driver(code, [j[0], j[1], json.dumps(j[2])], timeout=150), jobs))
@@ -149,6 +162,9 @@ def leak_suite(chk, quick=False):
                 b, a = d['base'], d['after']
                 if a['children'] > b['children']:
                     chk.violation('no_worker_process_alive_after_exit', case, {'children_before': b['children'], 'after': a['children']}, 'no child process left', input_class='real_children_' + cause)
+                if a.get('zombies', 0) > b.get('zombies', 0):
+                    chk.violation('no_worker_process_alive_after_exit', case, {'defunct_children_before': b.get('zombies'), 'after': a.get('zombies')},
+                                  'no process of the pool is left behind, not even one that has ended and was never waited for', input_class='real_zombies_' + cause)
                 if a['fds'] > b['fds']:
                     chk.violation('no_descriptor_accumulation', case, {'fds_before': b['fds'], 'after': a['fds']}, 'descriptor count does not grow over cycles', input_class='real_fds_' + cause)
                 if a['threads'] != b['threads']:
